@@ -83,6 +83,14 @@ def signatures(model):
 def sample_inputs(model, sd, k):
   sg = model.subgraphs[sd.subgraphIndex]
   ins = {}
+  if fakeinterp.STATE.get('content') is not None and getattr(
+      fakeinterp.STATE['content'], '__name__', '') == '_content':
+    for tm in sd.inputs or []:
+      t = sg.tensors[tm.tensorIndex]
+      nm = tm.name.decode() if isinstance(tm.name, bytes) else tm.name
+      dt = fakeinterp.NP.get(t.type, np.float32)
+      ins[nm] = (np.ones(tuple(t.shape)) * (k + 1)).astype(dt)
+    return ins
   for tm in sd.inputs or []:
     t = sg.tensors[tm.tensorIndex]
     nm = tm.name.decode() if isinstance(tm.name, bytes) else tm.name
@@ -339,8 +347,13 @@ def cal_recipes(tier):
 
 
 def case_list(tier):
-  fam = P.skeleton_family(tier)
+  fam = dict(P.skeleton_family(tier))
   names = SKELETONS_QUICK if tier == 'quick' else list(fam)
+  if tier == 'thorough':
+    dags = P.skeleton_family('thorough_dags')
+    extra = list(dags)[:80]
+    fam.update({k: dags[k] for k in extra})
+    names = names + extra
   out = []
   for skel in names:
     mb = fam[skel]
@@ -361,8 +374,8 @@ def case_list(tier):
 
 
 def _recipe(skel, rname, tier):
-  fam = P.skeleton_family(tier)
-  model = flatbuffer_utils.read_model_from_bytearray(bytearray(fam[skel]))
+  model = flatbuffer_utils.read_model_from_bytearray(
+      bytearray(P.model_bytes_of(skel, tier)))
   recs = dict(cal_recipes(tier))
   import re
   sc = P.op_scopes(model)
@@ -373,13 +386,13 @@ def _recipe(skel, rname, tier):
 
 def job_cal(job):
   tier = job.args['tier']
-  fam = P.skeleton_family(tier)
   st = Stats()
   cands, inconc, samples = [], [], []
   for skel, rname, key, n in job.args['cases']:
     en = Engine(solver_timeout_ms=30000, max_paths=24, wall_budget_s=60)
     en.stop_path_on_violation = True
-    en.explore(make_harness(fam[skel], _recipe(skel, rname, tier), key, n),
+    en.explore(make_harness(P.model_bytes_of(skel, tier),
+                            _recipe(skel, rname, tier), key, n),
                stop_on_violation=True)
     if en.violations:
       # a violation was found and is replayed; unexplored paths do not
@@ -418,8 +431,7 @@ def jobs(tier, seed):
 def replay(c):
   d = c['data']
   tier = 'thorough'
-  fam = P.skeleton_family(tier)
-  mb = fam[d['skeleton']]
+  mb = P.model_bytes_of(d['skeleton'], tier)
   recipe = _recipe(d['skeleton'], d['recipe'], tier)
   key, n = d['key'], d['n']
   model = flatbuffer_utils.read_model_from_bytearray(bytearray(mb))
